@@ -694,7 +694,7 @@ def gen_items(ctx):
     for i in range(n):
         layout = 'flat' if i % 4 else ['package', 'namespace', 'init', 'flat'][(i // 4) % 4]
         items.append({'prog': G.gen_program(rng, size=rng.choice([6, 10, 14])), 'layout': layout, 'tag': 'random'})
-    items += collision_items(ctx, ctx.subrng('collide'), ctx.size(30, 2500))
+    items += collision_items(ctx, ctx.subrng('collide'), ctx.size(30, 1500))
     return items
 
 
